@@ -739,12 +739,12 @@ class TextXMetaModel(DebugPrinter):
                 if pre_ref_resolution_callback:
                     pre_ref_resolution_callback(other_model)
 
+            cached_models = self._cached_model_ids()
             model = self._parser_blueprint.clone().get_model_from_str(
                 model_str, debug=debug, pre_ref_resolution_callback=kwargs_callback
             )
 
-            for p in self._model_processors:
-                p(model, self)
+            self._call_model_processors(model, cached_models)
         else:
             model = self.internal_model_from_file(
                 file_name,
@@ -810,6 +810,8 @@ class TextXMetaModel(DebugPrinter):
             if callback:
                 callback(other_model)
 
+        cached_models = self._cached_model_ids()
+
         if not model:
             # Read model from file
             if not model_str:
@@ -825,10 +827,30 @@ class TextXMetaModel(DebugPrinter):
                 is_main_model=is_main_model,
             )
 
-        for p in self._model_processors:
-            p(model, self)
+        self._call_model_processors(model, cached_models)
 
         return model
+
+    def _cached_model_ids(self):
+        if hasattr(self, "_tx_model_repository"):
+            return {id(m) for m in self._tx_model_repository.all_models}
+        return set()
+
+    def _call_model_processors(self, model, cached_models):
+        """
+        Calls model processors. If a processor fails the models loaded by the
+        current call must not stay cached in the global repository.
+        """
+        try:
+            for p in self._model_processors:
+                p(model, self)
+        except:  # noqa
+            if hasattr(self, "_tx_model_repository"):
+                repo = self._tx_model_repository
+                repo.remove_models(
+                    [m for m in list(repo.all_models) if id(m) not in cached_models]
+                )
+            raise
 
     def register_model_processor(self, model_processor):
         """
